@@ -421,3 +421,73 @@ Theorem C10_codec_altered_handshake_record_detected_partial :
    second_done H F1 b fin1_recv = false \/ first_done H F1 F2 fin_msg a fin2_recv = false.
 Proof. exact altered_handshake_record_detected_partial. Qed.
 Print Assumptions C10_codec_altered_handshake_record_detected_partial.
+
+(* (b) length formulas of the two hello messages *)
+Theorem C10_codec_set_client_hello_length :
+  forall (rv pv : N) (rnd sid cs : list N) (ex : option (list N)) (r : list N),
+   set_client_hello rv pv rnd sid cs ex = SOk r ->
+   length r =
+   9 + 2 + length rnd + 1 + length sid + 2 + 2 * length cs + 2 +
+   match ex with
+   | Some x => 2 + length x
+   | None => 0
+   end.
+Proof. exact set_client_hello_length. Qed.
+Print Assumptions C10_codec_set_client_hello_length.
+Theorem C10_codec_set_server_hello_length :
+  forall (rv pv : N) (rnd sid : list N) (c : N) (ex : option (list N)) (r : list N),
+   set_server_hello rv pv rnd sid c ex = SOk r ->
+   length r =
+   9 + 2 + length rnd + 1 + length sid + 2 + 1 + match ex with
+                                                 | Some x => 2 + length x
+                                                 | None => 0
+                                                 end.
+Proof. exact set_server_hello_length. Qed.
+Print Assumptions C10_codec_set_server_hello_length.
+
+(* the C entry points with (pointer, length) arguments: a non-NULL pointer with length 0 is refused, otherwise
+   they are the list forms above *)
+Theorem C10_codec_set_client_hello_c_ok :
+  forall (rv pv : N) (rnd : list N) (sid : option (list N)) (cs : list N) (ex : option (list N))
+     (r : list N),
+   set_client_hello_c rv pv rnd sid cs ex = SOk r ->
+   set_client_hello rv pv rnd (optl sid) cs ex = SOk r /\ sid <> Some [].
+Proof. exact set_client_hello_c_ok. Qed.
+Print Assumptions C10_codec_set_client_hello_c_ok.
+Theorem C10_codec_set_server_hello_c_ok :
+  forall (rv pv : N) (rnd : list N) (sid : option (list N)) (c : N) (ex : option (list N)) (r : list N),
+   set_server_hello_c rv pv rnd sid c ex = SOk r ->
+   set_server_hello rv pv rnd (optl sid) c ex = SOk r /\ sid <> Some [].
+Proof. exact set_server_hello_c_ok. Qed.
+Print Assumptions C10_codec_set_server_hello_c_ok.
+Theorem C10_codec_set_certificate_request_c_ok :
+  forall (rv : N) (ty nm : option (list N)) (r : list N),
+   set_certificate_request_c rv ty nm = SOk r ->
+   set_certificate_request rv (optl ty) (optl nm) = SOk r /\ ty <> Some [] /\ nm <> Some [].
+Proof. exact set_certificate_request_c_ok. Qed.
+Print Assumptions C10_codec_set_certificate_request_c_ok.
+
+(* the Finished message of Tls/KeySched.v is the codec's; with it the two framing premises are discharged *)
+Theorem C10_codec_finished_msg_codec :
+  forall (rv : N) (vd r : list N), set_finished rv vd = SOk r -> hs_message r = finished_msg vd.
+Proof. exact finished_msg_codec. Qed.
+Print Assumptions C10_codec_finished_msg_codec.
+Theorem C10_codec_altered_handshake_record_detected_finished_partial :
+  forall (H : list N -> list N) (F1 F2 : list N -> list N -> list N) (a b : party) 
+     (la lb : hs_log) (fin1_recv fin2_recv : list N),
+   log_ok la ->
+   log_ok lb ->
+   transcript a = log_bytes la ->
+   transcript b = log_bytes lb ->
+   log_seen lb <> log_seen la ->
+   fin2_recv = second_send H F2 finished_msg b fin1_recv ->
+   length fin1_recv = length (first_send H F1 a) ->
+   (F2 (sec2 b) (H (transcript b ++ finished_msg fin1_recv)) =
+    F2 (sec2 a) (H (transcript a ++ finished_msg (first_send H F1 a))) ->
+    sec2 b = sec2 a /\
+    H (transcript b ++ finished_msg fin1_recv) = H (transcript a ++ finished_msg (first_send H F1 a))) ->
+   (H (transcript b ++ finished_msg fin1_recv) = H (transcript a ++ finished_msg (first_send H F1 a)) ->
+    transcript b ++ finished_msg fin1_recv = transcript a ++ finished_msg (first_send H F1 a)) ->
+   second_done H F1 b fin1_recv = false \/ first_done H F1 F2 finished_msg a fin2_recv = false.
+Proof. exact altered_handshake_record_detected_finished_partial. Qed.
+Print Assumptions C10_codec_altered_handshake_record_detected_finished_partial.
